@@ -25,10 +25,11 @@ def araBit (issued : Bool) : R (Option Bool) := do
 def threatRange (n : Nat) : Option Json :=
   if n == 0 then none else some (jrat ((n : Int) - 1) 10)
 
-/-- `bearing`: `|n: u16| if n == 0 { None } else { Some(6 * (n - 1) + 3) }` in overflow-checked
-    `u16` arithmetic.  NB codes 61..63 give 363, 369, 375 degrees (no upper check in the code). -/
+/-- `bearing`: `|n: u16| if n == 0 || n > 60 { None } else { Some(6 * (n - 1) + 3) }` in
+    overflow-checked `u16` arithmetic (after the C08 repair; the original code had no upper test and
+    reported 363, 369, 375 degrees for the unassigned codes 61..63). -/
 def threatBearing (n : Nat) : Outcome (Option Nat) :=
-  if n == 0 then .ok none else do
+  if n == 0 || n > 60 then .ok none else do
     let a ← subU n 1
     let b ← mulU 16 6 a
     let c ← addU 16 b 3
@@ -62,9 +63,27 @@ def threatType : R SerFields := do
     let _unused ← bits 26
     pure (.ok [])
 
+/-- the fields of `ACASResolutionAdvisory` itself, in declaration order (`bds` and
+    `reserved_acas3` are `#[serde(skip)]`; the ten ARA/RAC options are skipped when `None`) -/
+def ownFields (issued : Bool)
+    (corrective downward increased reversal crossing positive noBelow noAbove noLeft noRight : Option Bool)
+    (terminated multiple : Bool) : Fields := [
+  fld (key! "issued_ra") (jbool issued),
+  optFlag (key! "corrective") corrective,
+  optFlag (key! "downward_sense") downward,
+  optFlag (key! "increased_rate") increased,
+  optFlag (key! "sense_reversal") reversal,
+  optFlag (key! "altitude_crossing") crossing,
+  optFlag (key! "positive") positive,
+  optFlag (key! "no_below") noBelow,
+  optFlag (key! "no_above") noAbove,
+  optFlag (key! "no_left") noLeft,
+  optFlag (key! "no_right") noRight,
+  fld (key! "terminated") (jbool terminated),
+  fld (key! "multiple") (jbool multiple) ]
+
 /-- `ACASResolutionAdvisory`: 8 + 1 + 6 + 7 + 4 + 1 + 1 + (2 + 26) = 56 bits.
-    serde: `tag = "bds", rename = "30"`; `bds` and `reserved_acas3` skipped; the ten ARA/RAC
-    options skipped when `None`; `threat_type` flattened (last). -/
+    serde: `tag = "bds", rename = "30"`; `threat_type` flattened (last). -/
 def read : R SerFields := do
   let b ← bits 8
   let _ ← R.lift (failIfNot30 b)
@@ -83,20 +102,8 @@ def read : R SerFields := do
   let terminated ← flag
   let multiple ← flag
   let tt ← threatType
-  let own : Fields := [
-    fld (key! "issued_ra") (jbool issued),
-    optFlag (key! "corrective") corrective,
-    optFlag (key! "downward_sense") downward,
-    optFlag (key! "increased_rate") increased,
-    optFlag (key! "sense_reversal") reversal,
-    optFlag (key! "altitude_crossing") crossing,
-    optFlag (key! "positive") positive,
-    optFlag (key! "no_below") noBelow,
-    optFlag (key! "no_above") noAbove,
-    optFlag (key! "no_left") noLeft,
-    optFlag (key! "no_right") noRight,
-    fld (key! "terminated") (jbool terminated),
-    fld (key! "multiple") (jbool multiple) ]
-  pure <| tagged (key! "bds") (key! "30") (tt.map fun fs => own ++ fs)
+  pure <| tagged (key! "bds") (key! "30") <| tt.map fun fs =>
+    ownFields issued corrective downward increased reversal crossing positive
+      noBelow noAbove noLeft noRight terminated multiple ++ fs
 
 end Rs1090.Model.Bds30
